@@ -891,7 +891,10 @@ class Expectation(Pytree):
             effectively performing only the forward pass through the stochastic
             computation graph.
         """
-        tangents = jtu.tree_map(lambda _: 0.0, args)
+        # Zero tangents with the shape and tangent dtype of each argument leaf
+        # (a scalar 0.0 breaks shape-sensitive JVP rules for array arguments, and
+        # integer arguments need float0 tangents).
+        tangents = jtu.tree_map(_zero_tangent_like, args)
         return self.jvp_estimate(*Dual.dual_tree(args, tangents)).primal
 
 
